@@ -11,11 +11,62 @@ def prefix_intact(got, sent):
     return got == sent[:len(got)]
 
 
-async def realise(ctx, sq, n, ops, rnd):
+PARENT_MODE = {}        # target port -> how the cache_peer parent treats a CONNECT to it ('refuse' | 'relay')
+
+
+async def parent_handle(reader, writer):
+    """a parent proxy: refuses the CONNECT with a 502 whose body shares the segment with the header (Squid then goes direct), or
+    relays - with the first bytes of a server that speaks first in the segment of its 200"""
+    w2 = None
+    try:
+        head = await asyncio.wait_for(reader.readuntil(b'\r\n\r\n'), 10.0)
+        port = int(head.split(b' ')[1].rsplit(b':', 1)[1])
+        if PARENT_MODE.get(port, 'refuse') == 'refuse':
+            body = b'<html>the parent could not reach the server</html>\n' * 3
+            writer.write(b'HTTP/1.1 502 Bad Gateway\r\nContent-Type: text/html\r\nContent-Length: %d\r\n\r\n' % len(body) + body)
+            await writer.drain()
+            await asyncio.sleep(0.3)
+            return
+        r2, w2 = await asyncio.open_connection('127.0.0.1', port, limit=1 << 22)
+        first = b''
+        try:
+            first = await asyncio.wait_for(r2.read(65536), 0.08)
+        except asyncio.TimeoutError:
+            pass
+        writer.write(b'HTTP/1.1 200 Connection established\r\n\r\n' + first)
+        await writer.drain()
+
+        async def pump(r, w):
+            try:
+                while True:
+                    d = await r.read(65536)
+                    if not d:
+                        break
+                    w.write(d)
+                    await w.drain()
+                w.write_eof()
+            except (ConnectionError, OSError, RuntimeError):
+                pass
+        await asyncio.wait_for(asyncio.gather(pump(reader, w2), pump(r2, writer)), 30.0)
+    except (asyncio.IncompleteReadError, asyncio.TimeoutError, ConnectionError, OSError, ValueError, IndexError):
+        pass
+    finally:
+        for w in (writer, w2):
+            try:
+                if w is not None:
+                    w.close()
+            except Exception:
+                pass
+
+
+async def realise(ctx, sq, n, ops, rnd, via=None):
     srv_state = {'data': b'', 'eof': False, 'writer': None, 'ready': asyncio.Event(), 'done': asyncio.Event()}
+    greet = rnd.randbytes(rnd.choice([1, 40, 3000])) if via else b''
 
     async def handle(reader, writer):
         srv_state['writer'] = writer
+        if greet:
+            writer.write(greet)          # the server speaks first
         srv_state['ready'].set()
         try:
             while True:
@@ -30,8 +81,12 @@ async def realise(ctx, sq, n, ops, rnd):
     server = await asyncio.start_server(handle, '127.0.0.1', 0)
     port = server.sockets[0].getsockname()[1]
     early = rnd.random() < 0.5
-    csent, ssent = b'', b''
+    csent, ssent = b'', greet
     ev = []
+    if via:
+        PARENT_MODE[port] = via
+    if greet:
+        ev.append({'e': 'Wrote', 'd': 's2c', 'n': len(greet)})
     cli = {'data': b'', 'eof': False}
     reader, writer = await asyncio.open_connection('127.0.0.1', sq.port, limit=1 << 22)
     req = ('CONNECT 127.0.0.1:%d HTTP/1.1\r\nHost: 127.0.0.1:%d\r\n\r\n' % (port, port)).encode()
@@ -132,7 +187,8 @@ async def realise(ctx, sq, n, ops, rnd):
     server.close()
     ev.append({'e': 'Received', 'd': 'c2s', 'len': len(srv_state['data']), 'intact': prefix_intact(srv_state['data'], csent), 'eof': bool(srv_state['eof'])})
     ev.append({'e': 'Received', 'd': 's2c', 'len': len(cli['data']), 'intact': prefix_intact(cli['data'], ssent), 'eof': bool(cli['eof'])})
-    return {'ev': ev, 'ops': ops, 'early': bool(first), 'csent': len(csent), 'ssent': len(ssent)}
+    PARENT_MODE.pop(port, None)
+    return {'ev': ev, 'ops': ops, 'early': bool(first), 'csent': len(csent), 'ssent': len(ssent), 'via': via}
 
 
 async def realise_reset(ctx, sq, n, rnd):
@@ -231,6 +287,32 @@ def run(ctx):
                 res.append(await realise_reset(ctx, sq, 900000 + i, random.Random(ctx.seed * 31 + i)))
             return res
         rs = [o for o in asyncio.run(resets()) if o]
+
+        # the same operation sequences behind a cache_peer parent that is tried first: it refuses (502 with a body in the
+        # header's segment; Squid then goes direct) or relays (a server that speaks first: its bytes follow the parent's 200)
+        async def via_parent():
+            ps = await asyncio.start_server(parent_handle, '127.0.0.1', 0, limit=1 << 22)
+            pport = ps.sockets[0].getsockname()[1]
+            sq2 = squidctl.Squid(ctx, tree, name='c06p', clock=False, http_access='acl CONNECT method CONNECT\nhttp_access allow all',
+                                 conf_extra='read_timeout 10 seconds\ncache_peer 127.0.0.1 parent %d 0 no-query no-digest no-netdb-exchange name=pa\n'
+                                            'nonhierarchical_direct off\nprefer_direct off\n' % pport)
+            sq2.start()
+            try:
+                pick = seqs * reps
+                random.Random(ctx.seed).shuffle(pick)
+                pick = pick[:(len(pick) if ctx.thorough else 60)]
+                res = await escen.gather_limited([realise(ctx, sq2, 500000 + i, s2, random.Random(ctx.seed * 7 + i), via=('refuse', 'relay')[i % 2])
+                                                  for i, s2 in enumerate(pick)], limit=8)
+                if not sq2.alive():
+                    ctx.violation('squid exited during the run', {'kind': 'exit', 'log': sq2.tail_log()})
+                return res
+            finally:
+                sq2.stop()
+                ps.close()
+        vp = [o for o in asyncio.run(via_parent()) if o]
+        ctx.cov['tunnels_after_a_refusing_parent'] = sum(1 for o in vp if o['via'] == 'refuse')
+        ctx.cov['tunnels_through_a_relaying_parent'] = sum(1 for o in vp if o['via'] == 'relay')
+        out += vp
         ctx.cov['abortive_close_with_blocked_peer_scenarios'] = len(rs)
         out += rs
         if not sq.alive():
@@ -241,11 +323,11 @@ def run(ctx):
     ctx.log('realised %d tunnels; P-rejected %d' % (len(out), len(rej)))
     for i in rej[:5]:
         ctx.violation('tunnel history is not a behaviour of Tunnel.tla: ops=%s events=%s' % (out[i]['ops'], json.dumps(out[i]['ev'])), {'kind': 'tunnel', 'scenario': out[i]})
-    ctx.cov['impl_distinct'] = len({json.dumps([o['ops'], o['csent'], o['ssent'], o['early']]) for o in out})
+    ctx.cov['impl_distinct'] = len({json.dumps([o['ops'], o['csent'], o['ssent'], o['early'], o.get('via')]) for o in out})
     ctx.cov['bytes_relayed'] = sum(e['len'] for o in out for e in o['ev'] if e['e'] == 'Received')
     ctx.cov['tunnels_with_early_bytes'] = sum(1 for o in out if o['early'])
     for o in out[:2]:
         ctx.sample(o)
     ctx.cov['rule'] = ('operation sequences = peer-visible words (client/server writes, one close) of all interleavings explored by TLC on TunnelImpl.tla (3 writes per side); '
-                       'realised with random binary payloads 1 B..300 KB, optional early bytes in the CONNECT segment; plus the abortive close of a server whose peer direction is blocked (Squid finds the last bytes and the reset together); what each side received is validated by TLC against Tunnel.tla. '
+                       'realised with random binary payloads 1 B..300 KB, optional early bytes in the CONNECT segment; plus the abortive close of a server whose peer direction is blocked (Squid finds the last bytes and the reset together); plus the sequences behind a cache_peer parent that refuses with a 502 (direct retry) or relays, with a server that speaks first; what each side received is validated by TLC against Tunnel.tla. '
                        'Non-trivial = distinct (sequence, sizes).')
